@@ -8,6 +8,7 @@ import (
 	"crypto/sha1"
 	"encoding/json"
 	"fmt"
+	"k8s.io/client-go/kubernetes"
 	"net/http"
 	"net/http/httptest"
 	"os"
@@ -167,6 +168,17 @@ func NewDaemonWith(e *Env, conf galaxy.JsonConf, netConfDir string, kube *k8sfak
 		return nil, err
 	}
 	return &Daemon{G: g, Kube: kube, Env: e}, nil
+}
+
+// NewDaemonClient builds a galaxy instance on an arbitrary API-server double.
+func NewDaemonClient(e *Env, conf galaxy.JsonConf, netConfDir string, client kubernetes.Interface) (*Daemon, error) {
+	pmh := portmapping.New("")
+	pmh.Interface = iptablesTest.NewFakeIPTables()
+	g, err := galaxy.VerifNewGalaxy(conf, netConfDir, nil, client, pmh, nil)
+	if err != nil {
+		return nil, err
+	}
+	return &Daemon{G: g, Env: e}, nil
 }
 
 // PinIP makes the fake plugins report ip for the container.
